@@ -787,9 +787,11 @@ def stream_display(run, rng, thorough):
         run.oblige('corr:display(computed display/float and box class, exhaustive)', not mism, 'first: %s' % mism[:3])
         bad = [(c, o) for (c, o), m in zip(kept, masks) if m & 2]
         if bad:
-            run.fail('computed display differs from the table of CSS 2.1 9.7 / CSS Display 3 2.7 (%d combinations): display:%s float:%s '
-                     'position:%s%s computes to %s' % (len(bad), bad[0][0]['display'], bad[0][0]['float'], bad[0][0]['position'],
-                                                       ' on the root element' if bad[0][0]['root'] else '', tuple(bad[0][1]['display'])),
+            run.fail('computed display / float or the class of the generated box differs from the table of CSS 2.1 9.7 / CSS Display 3 '
+                     '2.7 (%d combinations): display:%s float:%s position:%s%s computes to display %s, float %s and generates %s'
+                     % (len(bad), bad[0][0]['display'], bad[0][0]['float'], bad[0][0]['position'],
+                        ' on the root element' if bad[0][0]['root'] else '', tuple(bad[0][1]['display']), bad[0][1]['float'],
+                        bad[0][1]['cls']),
                      {'stream': 'display', 'case': bad[0][0], 'impl': bad[0][1], 'count': len(bad)}, signature='display-table')
         run.count('display', len(kept), [json.dumps(c, sort_keys=True) for c, _ in kept], samples=[kept[5][0]])
         run.stream_info('display', rule='exhaustive: %d display values x float {none,left,right} x position {static,relative,'
@@ -1431,9 +1433,13 @@ def check(run):
     rng = random.Random(run.seed * 7919 + 8)
     thorough = run.tier == 'thorough'
     common.prove(run, 'C08', ['model/C08Whitespace.vo', 'model/C08Table.vo', 'model/C08Display.vo', 'model/C08Tree.vo',
-                             'model/C08Fixups.vo'])
+                             'model/C08Fixups.vo', 'proofs/C08_gen_display.vo'])
     run.trusted += ['Coq 8.16.1 kernel (coqc); vm_compute for the cases.v evaluation',
-                    'hand-written models coq/model/C08*.v: tied to /repo by the corr:* streams of every run',
+                    'hand-written models coq/model/C08*.v: tied to /repo by the corr:* streams of every run; the display / '
+                    'float model and the box class table also by the C08_source_* theorems about the text regenerated from '
+                    'css/computed_values.py (display, compute_float, break_before_after) and build.py (BOX_TYPE_FROM_DISPLAY)',
+                    'tools/py2coq.py (printer) and coq/base/Py.v (meaning of the printed syntax; len is its primitive PLen); '
+                    'str.startswith and x[0] on a str are the builtins of proofs/C08_gen_display.v (builtin), methods resolved by name',
                     'harness/p_c08.py reference white-space processor of an inline formatting context (phase1/phase2, from CSS Text 3 4.1) '
                     'and word accounting; harness/impl_c08.py serialisation of box trees, process_whitespace hook']
     run.assumptions += ['text is modelled as UTF-8 bytes; text-transform is modelled for ASCII only',
@@ -1444,7 +1450,11 @@ def check(run):
                         'full documents are judged by spec_wf_tree, not compared with the fix-up models; running elements, flex_boxes / '
                         'grid_boxes and the span attribute of column groups are not modelled',
                         'slow documents (CPU limit 4 s) are counted and skipped: speed / termination is C02',
-                        'element_to_box / content_to_boxes (counters, quotes, target-*) are only monitored through ::before/::after strings']
+                        'element_to_box / content_to_boxes (counters, quotes, target-*) are only monitored through ::before/::after strings',
+                        'C08_source_*: the style object is modelled by the members the computers read (specified float / position, '
+                        'is_root_element); ComputedStyle.__missing__ (which records the specified values before the computers run), '
+                        'make_box (the [:2] slice and the call of the class) and the class hierarchy of boxes.py are outside the '
+                        'regenerated text: they are covered by the display stream']
     stream_ws(run, rng, thorough)
     stream_tables(run, rng, thorough)
     stream_fixups(run, rng, thorough)
